@@ -142,5 +142,6 @@ func vpPerm(n int) []int {
 	return out
 }
 
-// (two of the names hold multi-byte UTF-8: lengths are byte lengths, not character counts)
-var vpEntryNames = [4]string{"\u00e9", "bb", "c\u00e9c", "d\u65e5dd"}
+// (names of different byte lengths; some hold multi-byte UTF-8, one a backslash: lengths are byte
+// lengths of the raw names, not character counts and not lengths of an escaped rendering)
+var vpEntryNames = [4]string{"\u00e9", "b\\b", "c\u00e9c", "d\u65e5dd"}
